@@ -6,3 +6,8 @@ import XProofs.Properties.C02
 #print axioms Properties.C02.C02_runs_in_order
 #print axioms Properties.C02.C02_findTaskids_once_exact
 #print axioms Properties.C02.C02_acyclic_test_sound
+#print axioms Properties.C02.C02_execution
+#print axioms Properties.C02.C02_execution_any_order
+#print axioms Properties.C02.C02_any_set_order_is_legal
+#print axioms Properties.C02.C02_triggered_iff_declared_chain
+#print axioms Properties.C02.C02_failing_call_runs_a_prefix
